@@ -136,3 +136,92 @@ func c15ViewGraph(r *core.Run) {
 		}
 	}
 }
+
+// c15AttachWidths: the data of a physical transposition is moved by one kernel per element width (1, 2, 4, 8 bytes, a
+// generic one for 16 bytes, one for strings): the mask must move with the elements under every one of them.
+func c15AttachWidths(r *core.Run) {
+	dts := []ref.DT{ref.Bool, ref.Uint8, ref.Int16, ref.Float32, ref.Int64, ref.Complex128, ref.String}
+	shapes := [][]int{{2, 3}, {2, 2, 2}}
+	r.SetBound("attachment_widths", fmt.Sprintf("element types %v x shapes %v x every mask x {T+Transpose, T+Materialize, T+Clone+Transpose}", dts, shapes))
+	for _, d := range dts {
+		for _, shape := range shapes {
+			n := ref.Prod(shape)
+			for mb := 0; mb < 1<<uint(n); mb++ {
+				if !r.Take() {
+					continue
+				}
+				if r.Expired() {
+					return
+				}
+				for _, op := range []string{"T+Transpose", "T+Materialize", "T+Clone+Transpose"} {
+					d, shape, mb, op := d, shape, mb, op
+					id := fmt.Sprintf("C15|attach-width|%s|%s|%s|mask=%0*b", d.Name, op, shapeStr(shape), n, mb)
+					if r.ReplayCase != "" && id != r.ReplayCase {
+						continue
+					}
+					r.Case(id, true, func() *core.Fail {
+						tensor.VerifResetPools()
+						back := d.MakeSlice(n)
+						mask := make([]bool, n)
+						vals := make([]interface{}, n)
+						marr := ref.Arr{DT: ref.Bool, Shape: shape, El: make([]interface{}, n)}
+						for i := 0; i < n; i++ {
+							vals[i] = d.Code(i + 1)
+							ref.SliceSet(back, i, vals[i])
+							mask[i] = mb&(1<<uint(i)) != 0
+							marr.El[i] = mask[i]
+						}
+						t := tensor.New(tensor.WithShape(shape...), tensor.WithBacking(back, mask))
+						rk := len(shape)
+						wv := ref.Arr{DT: d, Shape: shape, El: vals}.Permute(ref.Reversal(rk))
+						wm := marr.Permute(ref.Reversal(rk))
+						var res *tensor.Dense
+						o := call(func() (e error) {
+							if e = t.T(); e != nil {
+								return
+							}
+							switch op {
+							case "T+Transpose":
+								e = t.Transpose()
+								res = t
+							case "T+Materialize":
+								res = t.Materialize().(*tensor.Dense)
+							case "T+Clone+Transpose":
+								res = t.Clone().(*tensor.Dense)
+								e = res.Transpose()
+							}
+							return
+						})
+						r.Op(1)
+						r.Outcome("attach-width:" + op + ":" + o.Class)
+						if o.Class != "ok" || res == nil || !ref.EqInts(res.Shape(), wv.Shape) {
+							return nil
+						}
+						if !res.IsMasked() {
+							if mb == 0 {
+								return nil
+							}
+							return core.F("wrong-mask", "lost", "%s of a masked %s tensor (mask %s) returns an unmasked tensor", op, d.Name, bitsOf(mask))
+						}
+						i := 0
+						var fail *core.Fail
+						ref.ForCoords(wv.Shape, func(c []int) {
+							if fail != nil {
+								return
+							}
+							v, e1 := res.At(c...)
+							m, e2 := res.MaskAt(c...)
+							if e1 != nil || e2 != nil {
+								fail = core.F("wrong-mask", "unreadable", "%s: At/MaskAt(%v) failed: %v %v", op, c, e1, e2)
+							} else if !ref.Same(v, wv.El[i]) || m != wm.El[i].(bool) {
+								fail = core.F("wrong-mask", fmt.Sprintf("c%d", i), "%s of a %s tensor of shape %v mask %s: coordinate %v has (value %s, masked %v), expected (%s, %v)", op, d.Name, shape, bitsOf(mask), c, ref.Fmt(v), m, ref.Fmt(wv.El[i]), wm.El[i])
+							}
+							i++
+						})
+						return fail
+					})
+				}
+			}
+		}
+	}
+}
